@@ -219,6 +219,40 @@ pub(crate) struct LocalNode {
 
     /// Thread local data for the helping strategy.
     helping: HelpingLocal,
+
+    /// How many `with` calls are running on this thread right now.
+    ///
+    /// They do nest ‒ a writer helping a reader performs a load of its own.
+    depth: Cell<usize>,
+
+    /// The generation wrapped around, the node should be sent to cooldown. But only once nothing
+    /// on this thread uses it any more ‒ the transaction that has noticed is still in progress
+    /// at that point and outer `with` frames may be using the node too.
+    discard: Cell<bool>,
+}
+
+/// Keeps track of how deep in `LocalNode::with` calls we are and gives the node up on the way out
+/// of the outermost one if it was asked for.
+struct Nesting<'a>(&'a LocalNode);
+
+impl<'a> Nesting<'a> {
+    fn enter(local: &'a LocalNode) -> Self {
+        local.depth.set(local.depth.get() + 1);
+        Nesting(local)
+    }
+}
+
+impl Drop for Nesting<'_> {
+    fn drop(&mut self) {
+        let local = self.0;
+        let depth = local.depth.get() - 1;
+        local.depth.set(depth);
+        if depth == 0 && local.discard.replace(false) {
+            if let Some(node) = local.node.take() {
+                node.start_cooldown();
+            }
+        }
+    }
 }
 
 impl LocalNode {
@@ -231,6 +265,7 @@ impl LocalNode {
                     head.node.set(Some(Node::get()));
                 }
                 let f = f.take().unwrap();
+                let _nesting = Nesting::enter(head);
                 f(head)
             })
             // During the application shutdown, the thread local storage may be already
@@ -244,6 +279,8 @@ impl LocalNode {
                     node: Cell::new(Some(Node::get())),
                     fast: FastLocal::default(),
                     helping: HelpingLocal::default(),
+                    depth: Cell::new(0),
+                    discard: Cell::new(false),
                 };
                 let f = f.take().unwrap();
                 f(&tmp_node)
@@ -257,10 +294,13 @@ impl LocalNode {
             node: Cell::new(None),
             fast: FastLocal::default(),
             helping: HelpingLocal::default(),
+            depth: Cell::new(0),
+            discard: Cell::new(false),
         });
         if thread_head.node.get().is_none() {
             thread_head.node.set(Some(Node::get()));
         }
+        let _nesting = Nesting::enter(thread_head);
         f(&thread_head)
     }
 
@@ -285,8 +325,11 @@ impl LocalNode {
         if discard {
             // Too many generations happened, make sure the writers give the poor node a break for
             // a while so they don't observe the generation wrapping around.
-            node.start_cooldown();
-            self.node.take();
+            //
+            // Not right now, though. The transaction we have just started (and possibly some
+            // outer `with` frames) still needs the node; it is given up when the outermost `with`
+            // on this thread returns.
+            self.discard.set(true);
         }
         gen
     }
@@ -342,6 +385,8 @@ thread_local! {
         node: Cell::new(None),
         fast: FastLocal::default(),
         helping: HelpingLocal::default(),
+        depth: Cell::new(0),
+        discard: Cell::new(false),
     };
 }
 
